@@ -233,6 +233,9 @@ func (t *Task) yield() {
 		next.state = 0
 		next.wake = nil
 	}
+	if debugPreempt {
+		fmt.Printf("YIELD g%d -> g%d (%s)\n", t.id, next.id, next.name)
+	}
 	p.switchTo(t, next)
 	t.state = 0
 	t.wake = nil
@@ -539,6 +542,15 @@ func (p *Path) earliestTimer() *vTimer {
 
 func (p *Path) fire(tm *vTimer) {
 	tm.fired++
+	if debugPreempt {
+		n := "chan"
+		if tm.fn != nil && tm.fn.Fn != nil {
+			n = tm.fn.Fn.String()
+		} else if tm.fn != nil {
+			n = tm.fn.Tag
+		}
+		fmt.Printf("FIRE timer %d %s\n", tm.id, n)
+	}
 	if tm.period != nil {
 		tm.deadline = p.C.Add(tm.deadline, tm.period)
 	} else {
